@@ -7,6 +7,19 @@ LEVEL = "proof"
 
 def run(ctx):
     st = generic.standard(ctx, "Props_C06", "c06-protocol", "pool-protocol", lists=("M",))
+    # call-site discipline assumed by the ownership theorem, re-extracted from the source
+    hb0 = common.build_harness()
+    stats0 = ctx.path("stats_scope.json")
+    rc0, out0 = common.harness(ctx, hb0, "c06-scope", ["-stats", stats0], timeout=600)
+    if rc0 != 0 or not os.path.exists(stats0):
+        ctx.oblige("regenerated:acquire/release scope discipline (extractor runs)", False, out0[-2000:])
+    else:
+        st0 = common.load_stats(stats0)
+        for v in st0.get("violations", []):
+            v["static"] = True   # a call site, not an execution
+        common.absorb_stats(ctx, st0, "scope-discipline")
+        ctx.oblige("regenerated:every putSearchState lies within the block that acquired the state (%d puts in %d functions)"
+                   % (st0.get("evaluations", 0), st0.get("distinct_nontrivial", 0)), not st0.get("violations"))
     # race-detector replay (runtime part: observed, not modelled)
     hb = common.build_harness(race=True)
     stats = ctx.path("stats_race.json")
